@@ -68,7 +68,7 @@ def _apply_gate(psi, n, g):
     return out
 
 
-def branches(w, cbits0):
+def branches(w, cbits0, records=None, cut=1e-18):
     """All measurement records of the witness circuit: list of (record, prob, unnormalised vector or None, bits,
     fired) in the order of itertools.product([0,1], repeat=m).  Classical control: the gate acts iff the integer
     formed by the listed bits (first listed = most significant) equals the control value."""
@@ -78,19 +78,23 @@ def branches(w, cbits0):
     m = sum(1 for o in w["ops"] if "M" in o)
     out = []
     idx = np.arange(2 ** n)
-    for rec in itertools.product([0, 1], repeat=m):
+    for rec in (itertools.product([0, 1], repeat=m) if records is None else records):
         psi = psi0.copy()
         bits = list(cbits0) if (cbits0 and len(cbits0) == ncb) else [0] * ncb
         j = 0
         alive = True
+        mincond = 1.0            # smallest single-outcome (conditional) probability along the record
         for o in w["ops"]:
             if "M" in o:
                 keep = ((idx >> (n - 1 - o["M"])) & 1) == rec[j]
+                before = float(np.vdot(psi, psi).real)
                 psi = np.where(keep, psi, 0)
+                if before > 0:
+                    mincond = min(mincond, float(np.vdot(psi, psi).real) / before)
                 if o.get("store") is not None:
                     bits[o["store"]] = rec[j]
                 j += 1
-                if np.vdot(psi, psi).real <= 1e-18:
+                if np.vdot(psi, psi).real <= cut:
                     alive = False
                     break
             else:
@@ -105,7 +109,7 @@ def branches(w, cbits0):
                         continue
                 psi = _apply_gate(psi, n, o)
         p = float(np.vdot(psi, psi).real) if alive else 0.0
-        out.append((list(rec), p, psi if alive else None, bits))
+        out.append((list(rec), p, psi if alive else None, bits, mincond))
     return out
 
 
@@ -154,6 +158,8 @@ def oracle(w):
             return _oracle_transformed(w)
         if w.get("kind") == "condhist":
             return _oracle_condhist(w)
+        if w.get("kind") == "tiny":
+            return _oracle_tiny(w)
         return _oracle(w)
     except Exception as e:
         return True, "the implementation raised " + type(e).__name__ + ": " + str(e)[:120]
@@ -610,6 +616,27 @@ def _oracle_condhist(w):
     used = CircuitSimulator(qc)
     for k, st in enumerate(w["stages"]):
         for e in st.get("set") or []:
+            if "add" in e:
+                # an operation appended (index None) or inserted through the public API
+                o = copy.deepcopy(e["add"])
+                i = len(cur) if e.get("index") is None else min(e["index"], len(cur))
+                idx = {} if e.get("index") is None else {"index": [i]}
+                if "M" in o:
+                    qc.add_measurement("M", targets=[o["M"]], classical_store=o.get("store"), **idx)
+                else:
+                    kw = {}
+                    if o.get("cc") is not None:
+                        kw = {"classical_controls": list(o["cc"]), "classical_control_value": o["ccv"]}
+                    qc.add_gate(o["name"], targets=list(o["targets"]),
+                                controls=(list(o["controls"]) if o.get("controls") else None), arg_value=o.get("arg"),
+                                **idx, **kw)
+                cur.insert(i, o)
+                continue
+            if "remove" in e:
+                i = min(e["remove"], len(cur) - 1)
+                qc.remove_gate_or_measurement(index=i)
+                del cur[i]
+                continue
             g, o = qc.gates[e["i"]], cur[e["i"]]
             if "cc" in e:
                 g.classical_controls = None if e["cc"] is None else list(e["cc"])
@@ -626,11 +653,32 @@ def _oracle_condhist(w):
         br = branches(dict(w, ops=cur), w.get("cbits"))
         sim = {"same": used, "new": CircuitSimulator(qc), "circuit": None}[st.get("sim", "same")]
         try:
-            d = _check_sim(qc, sim, st.get("how", "stat"), ket, w.get("cbits"), br, ncb)
+            if st.get("sim") == "circuit" and st.get("how") == "dm":
+                # QubitCircuit.run on a density matrix (its own simulation mode): the mixture of the current branches
+                if reads_earlier_written_bit(dict(w, ops=cur)):
+                    continue
+                rho = qc.run(qutip.ket2dm(ket), cbits=(None if w.get("cbits") is None else list(w["cbits"])))
+                mix = sum(np.outer(b[2], b[2].conj()) for b in br if b[1] > 1e-12)
+                d = None if np.allclose(rho.full(), mix, atol=1e-8) else \
+                    "QubitCircuit.run on the density matrix is not the mixture of the branches of the current circuit"
+            elif st.get("sim") == "circuit" and st.get("how") == "run":
+                d = None
+                for b in br:
+                    if b[1] <= 1e-12:
+                        continue
+                    arg = None if w.get("cbits") is None else list(w["cbits"])
+                    out = qc.run(ket, cbits=arg, measure_results=tuple(b[0])) if b[0] else qc.run(ket, cbits=arg)
+                    if out is None or not np.allclose(out.full().ravel(), b[2] / np.linalg.norm(b[2]), atol=1e-8):
+                        d = f"QubitCircuit.run with prescribed record {b[0]}: not the branch of the current circuit"
+                        break
+            else:
+                d = _check_sim(qc, sim, st.get("how", "stat"), ket, w.get("cbits"), br, ncb)
         except Exception as ex:
             d = "the implementation raised " + type(ex).__name__ + ": " + str(ex)[:80]
         if d:
             conds = [(o["name"], o["cc"], o["ccv"]) for o in cur if "M" not in o and o.get("cc") is not None]
+            if any("add" in e or "remove" in e for st2 in w["stages"] for e in (st2.get("set") or [])):
+                conds = "operations now: " + json.dumps([("M%d" % o["M"]) if "M" in o else o["name"] + str(o["targets"]) for o in cur])
             edits = [st2.get("set") for st2 in w["stages"][:k + 1] if st2.get("set")]
             return True, (f"simulation {k} ({st.get('how', 'stat')} on {st.get('sim', 'same')} simulator) after the edits "
                           f"{json.dumps(edits)}: {d} (conditions the circuit shows now: {conds})")
@@ -673,6 +721,43 @@ def rand_condhist(rng):
     return {"kind": "condhist", "n": n, "ncb": ncb, "ops": ops, "init": w["init"], "cbits": w["cbits"], "stages": stages}
 
 
+def rand_structhist(rng):
+    """one QubitCircuit object simulated through ITS OWN API (run / run_statistics, ket and density matrix), operations
+    added / inserted / removed in between"""
+    w = rand_witness(rng, general=True)
+    n, ncb = w["n"], w["ncb"]
+    ops = [o for o in w["ops"]][:5]
+    for o in ops:
+        if "M" not in o and o.get("cc") and o.get("ccv") is None:
+            o["ccv"] = 2 ** len(o["cc"]) - 1
+    how = lambda: rng.choice(["stat", "stat", "run", "dm"])
+    stages = [{"set": [], "sim": "circuit", "how": how()}]
+    length, nm = len(ops), sum(1 for o in ops if "M" in o)
+    for _ in range(rng.randint(1, 3)):
+        r = rng.random()
+        if r < 0.4 and nm < 3:
+            e = {"add": {"M": rng.randrange(n), "store": (rng.randrange(ncb) if ncb else None)},
+                 "index": rng.choice([None, rng.randint(0, length)])}
+            length += 1
+            nm += 1
+        elif r < 0.75 or length <= 1:
+            nm_ = rng.choice(["X", "SNOT", "RX", "Z"])
+            g = {"name": nm_, "targets": [rng.randrange(n)], "controls": None,
+                 "arg": (round(rng.uniform(-3, 3), 3) if nm_ == "RX" else None), "cc": None, "ccv": None}
+            if ncb and rng.random() < 0.3:
+                g["cc"], g["ccv"] = [rng.randrange(ncb)], rng.randint(0, 1)
+            e = {"add": g, "index": rng.choice([None, rng.randint(0, length)])}
+            length += 1
+        else:
+            e = {"remove": rng.randrange(length)}
+            length -= 1
+        stages.append({"set": [e], "sim": rng.choice(["circuit", "circuit", "circuit", "new"]), "how": how()})
+    for st in stages:
+        if st["sim"] != "circuit" and st["how"] == "dm":
+            st["how"] = "stat"
+    return {"kind": "condhist", "n": n, "ncb": ncb, "ops": ops, "init": w["init"], "cbits": w["cbits"], "stages": stages}
+
+
 def shrink(w, fails, budget=80):
     """greedy: fewer simulations, fewer operations, simpler initial data — as long as the oracle still fails"""
     import copy
@@ -693,13 +778,16 @@ def shrink(w, fails, budget=80):
             if len(w["stages"]) > 1:
                 x = copy.deepcopy(w)
                 dropped = x["stages"].pop(k)
+                if dropped.get("set") and k >= len(x["stages"]):
+                    continue          # the last simulation carries the edit under test
                 if k < len(x["stages"]) and dropped.get("set"):
                     x["stages"][k]["set"] = dropped["set"] + (x["stages"][k].get("set") or [])
                 if bad(x):
                     w, changed = x, True
-        used = {e["i"] for st in w.get("stages", []) for e in (st.get("set") or [])}
+        structural = any("add" in e or "remove" in e for st in w.get("stages", []) for e in (st.get("set") or []))
+        used = set() if structural else {e["i"] for st in w.get("stages", []) for e in (st.get("set") or [])}
         for i in reversed(range(len(w["ops"]))):
-            if i in used or len(w["ops"]) <= 1:
+            if structural or i in used or len(w["ops"]) <= 1:
                 continue
             x = copy.deepcopy(w)
             del x["ops"][i]
@@ -709,7 +797,7 @@ def shrink(w, fails, budget=80):
                         e["i"] -= 1
             if bad(x):
                 w, changed = x, True
-                used = {e["i"] for st in w.get("stages", []) for e in (st.get("set") or [])}
+                used = {e["i"] for st in w.get("stages", []) for e in (st.get("set") or []) if "i" in e}
         for key, val in (("cbits", None), ("init", [[1, 0]] + [[0, 0]] * (2 ** w["n"] - 1))):
             if w.get(key) != val:
                 x = dict(copy.deepcopy(w), **{key: val})
@@ -724,6 +812,111 @@ def shrink(w, fails, budget=80):
                         w, changed = x, True
                         break
     return w
+
+
+W_STRUCTHIST = {"kind": "condhist", "n": 1, "ncb": 1, "cbits": None, "init": [[1, 0], [0, 0]],
+                "ops": [{"name": "SNOT", "targets": [0], "controls": None, "arg": None, "cc": None, "ccv": None}],
+                "stages": [{"set": [], "sim": "circuit", "how": "stat"},
+                           {"set": [{"add": {"M": 0, "store": 0}, "index": None}], "sim": "circuit", "how": "stat"}]}
+
+
+# ------------------------------------------------------------------------------------------
+# records of tiny but legitimate probability
+
+def _oracle_tiny(w):
+    """Branches of tiny probability: the simulator prunes an outcome only when its SINGLE-measurement probability is
+    below its tolerance (atol**2; documented 1e-12).  A record every outcome of which has conditional probability
+    > 1e-12 must be present, with the Born probability to a RELATIVE accuracy, however small the product is."""
+    import qutip
+    from qutip_qip.circuit import CircuitSimulator
+    n, ncb = w["n"], w["ncb"]
+    qc = build_from_witness(w)
+    psi0 = np.array([complex(a, b) for a, b in w["init"]], dtype=complex)
+    psi0 = psi0 / np.linalg.norm(psi0)
+    ket = qutip.Qobj(psi0.reshape(-1, 1), dims=[[2] * n, [1] * n])
+    cb0 = w.get("cbits")
+    recs = w.get("records")
+    br = branches(w, cb0, records=(None if recs is None else [tuple(r) for r in recs]), cut=0.0)
+    if any(0 < b[4] <= 1e-12 for b in br):
+        return False, "not decidable: an outcome within the pruning tolerance of a single measurement"
+    rel = lambda p, q: abs(p - q) <= 1e-6 * q + 1e-30
+    same = lambda q, vec: q is not None and np.allclose(q.full().ravel(), vec / np.linalg.norm(vec), atol=1e-7)
+    live = [b for b in br if b[1] > 0]
+    if recs is None:
+        res = qc.run_statistics(ket, cbits=(None if cb0 is None else list(cb0)))
+        probs = [float(p) for p in res.get_probabilities()]
+        if len(probs) != len(live):
+            missing = [(b[0], b[1]) for b in live][:4]
+            return True, (f"run_statistics returns {len(probs)} branches, {len(live)} records have non-zero probability with "
+                          f"every single outcome above the pruning tolerance (records / Born probabilities: {missing}); "
+                          f"sum of the returned probabilities {sum(probs)!r}")
+        for a, b in enumerate(live):
+            if not rel(probs[a], b[1]):
+                return True, f"run_statistics, record {b[0]}: probability {probs[a]!r}, Born rule gives {b[1]!r}"
+            if not same(res.get_final_states()[a], b[2]):
+                return True, f"run_statistics, record {b[0]}: wrong final state"
+        if abs(sum(probs) - 1) > 1e-9:
+            return True, f"run_statistics: probabilities sum to {sum(probs)!r}"
+    sim = CircuitSimulator(qc)
+    for b in live:
+        r = sim.run(ket, cbits=(None if cb0 is None else list(cb0)), measure_results=tuple(b[0]))
+        p, st = float(r.get_probabilities(0)), r.get_final_states(0)
+        if st is None or not rel(p, b[1]):
+            return True, (f"run(measure_results={tuple(b[0]) if len(b[0]) <= 8 else '<%d outcomes>' % len(b[0])}): probability "
+                          f"{p!r}{' and no state' if st is None else ''}, Born rule gives {b[1]!r} (smallest single-outcome "
+                          f"probability along the record {b[4]:.3e})")
+        if not same(st, b[2]):
+            return True, f"run(measure_results={b[0][:8]}…): wrong final state"
+        if ncb and list(map(int, r.get_cbits(0))) != b[3]:
+            return True, f"run(measure_results={b[0][:8]}…): bits {r.get_cbits(0)} expected {b[3]}"
+    return False, f"{len(live)} records down to probability {min((b[1] for b in live), default=1):.2e} agree"
+
+
+TINY_ANGLES = [2e-4, 1e-4, 6.3e-3, 2e-5, 1e-3]
+
+
+def rand_tiny(rng):
+    if rng.random() < 0.3:
+        # a long prescribed record of balanced measurements on few qubits
+        n = rng.randint(1, 2)
+        k = rng.randint(24, 34)
+        ops = []
+        for j in range(k):
+            q = rng.randrange(n)
+            ops.append({"name": "SNOT", "targets": [q], "controls": None, "arg": None, "cc": None, "ccv": None})
+            ops.append({"M": q, "store": (0 if rng.random() < 0.5 else None)})
+        init = [[1, 0]] + [[0, 0]] * (2 ** n - 1)
+        return {"kind": "tiny", "n": n, "ncb": 1, "ops": ops, "init": init, "cbits": None,
+                "records": [[rng.randint(0, 1) for _ in range(k)] for _ in range(2)]}
+    n = rng.randint(1, 3)
+    ncb = rng.randint(0, 2)
+    ops, m = [], 0
+    for q in rng.sample(range(n), rng.randint(1, n)):
+        if rng.random() < 0.3:
+            ops.append({"name": "X", "targets": [q], "controls": None, "arg": None, "cc": None, "ccv": None})
+        ops.append({"name": rng.choice(["RX", "RY"]), "targets": [q], "controls": None,
+                    "arg": rng.choice(TINY_ANGLES) * rng.choice([1, -1]), "cc": None, "ccv": None})
+        if rng.random() < 0.85 and m < 3:
+            ops.append({"M": q, "store": (rng.randrange(ncb) if ncb and rng.random() < 0.8 else None)})
+            m += 1
+            if ncb and rng.random() < 0.4:
+                ops.append({"name": "X", "targets": [rng.randrange(n)], "controls": None, "arg": None,
+                            "cc": [rng.randrange(ncb)], "ccv": 1})
+    if m == 0:
+        ops.append({"M": ops[-1]["targets"][0], "store": None})
+    init = [[1, 0]] + [[0, 0]] * (2 ** n - 1)
+    return {"kind": "tiny", "n": n, "ncb": ncb, "ops": ops, "init": init, "cbits": None, "records": None}
+
+
+_rx = lambda q, a: {"name": "RX", "targets": [q], "controls": None, "arg": a, "cc": None, "ccv": None}
+W_TINY1 = {"kind": "tiny", "n": 1, "ncb": 0, "init": [[1, 0], [0, 0]], "cbits": None, "records": None,
+           "ops": [_rx(0, 1e-4), {"M": 0, "store": None}]}
+W_TINY2 = {"kind": "tiny", "n": 2, "ncb": 0, "init": [[1, 0], [0, 0], [0, 0], [0, 0]], "cbits": None, "records": None,
+           "ops": [_rx(0, 6.3e-3), _rx(1, 6.3e-3), {"M": 0, "store": None}, {"M": 1, "store": None}]}
+W_LONG = {"kind": "tiny", "n": 1, "ncb": 0, "init": [[1, 0], [0, 0]], "cbits": None,
+          "records": [[(j * 7 // 3) % 2 for j in range(28)]],
+          "ops": sum(([{"name": "SNOT", "targets": [0], "controls": None, "arg": None, "cc": None, "ccv": None},
+                       {"M": 0, "store": None}] for _ in range(28)), [])}
 
 
 W_CONDHIST = {"kind": "condhist", "n": 2, "ncb": 1, "cbits": None, "init": [[1, 0], [0, 0], [0, 0], [0, 0]],
@@ -1102,6 +1295,25 @@ class C02(PropertyCheck):
         res.notes.append(f"{ng} histories were compared only up to the call after which `_state` is an array of a wrong "
                          "shape (a gate stepped on the matrix-shaped array left by the `state` property, >= 2 qubits)")
 
+        # 3b. long prescribed records of balanced measurements: the record has probability 2^-k (exact fraction in the
+        #     model), far below any absolute tolerance, while every single outcome has probability 1/2
+        cases = []
+        for it in range(40 if ctx.thorough else 6):
+            k = rng.randint(24, 34)
+            ops = []
+            for j in range(k):
+                ops.append({"g": 4, "q": [0], "cc": None, "ccv": 0})
+                ops.append({"m": 0, "store": (0 if rng.random() < 0.5 else None)})
+            cases.append({"n": 1, "ncb": 1, "mode": "sv", "ops": ops, "lists": [[rng.randint(0, 1)]],
+                          "inits": [{"k": 0, "vecs": [[1, 0]]}],
+                          "calls": [("run", 0, rng.choice([None, 0]), [rng.randint(0, 1) for _ in range(k)]) for _ in range(2)]})
+        self._run_cases(ctx, res, cases, lambda c, i: ["stream=long-record", "m=%d" % S.num_meas(c)],
+                        lambda c: {"kind": "tiny", "n": 1, "ncb": 1, "init": [[1, 0], [0, 0]], "cbits": None,
+                                   "records": [list(c["calls"][0][3])],
+                                   "ops": [({"M": 0, "store": o["store"]} if "m" in o else
+                                            {"name": "SNOT", "targets": [0], "controls": None, "arg": None, "cc": None, "ccv": None})
+                                           for o in c["ops"]]})
+
         # 4. malformed: wrong-length / empty / non-binary caller lists, indices out of range or negative,
         #    negative control values, short or non-binary measure_results, invalid targets
         cases = []
@@ -1164,7 +1376,7 @@ class C02(PropertyCheck):
         rng = ctx.rng
         skip = self._skip_classes()
         t0 = time.time()
-        fixed = [W_ALIAS, W_BIGCCV, W_DEFAULT3, W_DEFAULT4, W_RESOLVED, W_ASSIGNED, W_CONDHIST] + ([] if "dm-feedforward" in skip else [W_DMFF]) + \
+        fixed = [W_ALIAS, W_BIGCCV, W_DEFAULT3, W_DEFAULT4, W_RESOLVED, W_ASSIGNED, W_CONDHIST, W_STRUCTHIST, W_TINY1, W_TINY2, W_LONG] + ([] if "dm-feedforward" in skip else [W_DMFF]) + \
             ([] if "C02-4" in pending() else [W_ADDCIRC])
         for w in fixed:
             f, d = oracle(w)
@@ -1173,9 +1385,17 @@ class C02(PropertyCheck):
         i = 0
         while time.time() - t0 < budget_s and (count is None or i < count):
             i += 1
-            if rng.random() < 0.2:
-                # one circuit object simulated several times, the condition of a live gate object edited in between
-                w = rand_condhist(rng)
+            if rng.random() < 0.12:
+                # records of tiny but legitimate probability (small angles before measurements, long prescribed records)
+                w = rand_tiny(rng)
+                f, d = oracle(w)
+                if f:
+                    yield w, d
+                continue
+            if rng.random() < 0.3:
+                # one circuit object simulated several times: the condition of a live gate object edited in between, or
+                # operations added / inserted / removed between simulations through the QubitCircuit API
+                w = rand_condhist(rng) if rng.random() < 0.5 else rand_structhist(rng)
                 f, d = oracle(w)
                 if f:
                     w = shrink(w, lambda x: oracle(x)[0])
